@@ -11,3 +11,6 @@ import TlxVerif.Props.C08
 #print axioms TlxVerif.C08.partition_is_weak
 #print axioms TlxVerif.C08.model_roundUp_is_least_power_of_two
 #print axioms TlxVerif.C08.model_sample_sort_determined
+#print axioms TlxVerif.C08.refinement_correct
+#print axioms TlxVerif.C08.refinement_correct_lists
+#print axioms TlxVerif.C08.selection_model_correct
